@@ -324,7 +324,7 @@ def stageChecks (prog : String) (pd : ParsedDef) (dump : Dump) : List String := 
         out := out ++ [checkLine prog s!"bisim.ctx{i}" r.1.ok (showBisim r)]
         out := out ++ [checkLine prog s!"wf.ctx{i}" (ctxWF b) ""]
     -- well-formedness of the dumped machine (hypotheses of the run-time theorem)
-    let wf := machineWF dump.simp dump.entries1 dump.ctxs.length
+    let wf := machineWF dump.simp dump.entries1 dump.ctxs.length dump.inlined
     out := out ++ [checkLine prog "wf.entries" wf.entriesOK "", checkLine prog "wf.targets" wf.targetsOK "",
       checkLine prog "wf.ranges" wf.rangesOK "", checkLine prog "wf.chars" wf.charsOK "",
       checkLine prog "wf.eoi" wf.eoiOK "", checkLine prog "wf.acceptany" wf.acceptAnyOK "",
@@ -343,18 +343,22 @@ def stageChecks (prog : String) (pd : ParsedDef) (dump : Dump) : List String := 
       let missing := ((m.zip dump.full).filter fun (a, b) => a.backtrack && !b.backtrack).length
       out := out ++ [s!"INFO {prog} flags.precision same={same} extra={extra} missing={missing} elided={(dump.full.filter fun s => !s.backtrack && s.accepting.isEmpty).length}"]
     -- numbering tables
+    -- the set of inlined states the macro reported is taken as given (any policy): it only has to be
+    -- admissible (`inlOK`); the model's default policy result is printed for information
     let inl := inlinedStates dump.simp
-    out := out ++ [checkLine prog "dispatch.inlined" (inl == dump.inlined && dump.nStates == dump.simp.length) s!"model {inl} dump {dump.inlined}"]
-    let arms := stateArms dump.simp
+    let inlDefault := inl == dump.inlined
+    let policy := if inlDefault then "policy=default" else "policy=other"
+    out := out ++ [checkLine prog "dispatch.inlined" (inlOK dump.simp dump.inlined && dump.nStates == dump.simp.length) s!"model {inl} dump {dump.inlined} {policy}"]
+    let arms := stateArms dump.simp dump.inlined
     out := out ++ [checkLine prog "dispatch.arms" (arms == dump.arms) s!"model {repr arms} dump {repr dump.arms}"]
-    let sw := switchTable dump.simp dump.entries1
+    let sw := switchTable dump.inlined dump.entries1
     let swOK := sw.length == dump.switches.length && sw.all fun e => dump.switches.contains e
     out := out ++ [checkLine prog "dispatch.switch" swOK s!"model {sw} dump {dump.switches}"]
     -- every number stored in `__state` resolves to the arm of the intended state
     let armsOK := (List.range dump.simp.length).all fun s =>
-      inlinedAt dump.simp s || dispatch dump.arms (renumber dump.inlined s) == some s
+      dump.inlined.contains s || dispatch dump.arms (renumber dump.inlined s) == some s
     out := out ++ [checkLine prog "dispatch.resolve" armsOK ""]
-    let stats := s!"INFO {prog} stats states_full={dump.full.length} states_simp={dump.simp.length} inlined={dump.inlined.length} rulesets={dump.entries1.length} ctxs={dump.ctxs.length} removed={dump.full.length - dump.simp.length} cyc={(dump.simp.filter fun s => (gotoSuccs s).any fun t => (dump.simp.st t).preds.length > 1).length}"
+    let stats := s!"INFO {prog} stats states_full={dump.full.length} states_simp={dump.simp.length} inlined={dump.inlined.length} rulesets={dump.entries1.length} ctxs={dump.ctxs.length} removed={dump.full.length - dump.simp.length} cyc={(dump.simp.filter fun s => (gotoSuccs s).any fun t => (dump.simp.st t).preds.length > 1).length} inl_default={if inlDefault then 1 else 0}"
     out := out ++ [stats]
     return out
 
@@ -448,14 +452,16 @@ def runCase (prog : String) (pd : ParsedDef) (dump : Dump) (model : Option Compi
         pairs widths
       let width : Nat → Nat := fun c => ((wl.find? (·.1 = c)).map (·.2)).getD 1
       let withText := inp = "str"
-      let machine : Option (DFA Trans × List (String × Nat) × List (DFA Nat)) :=
-        if mach = "dump" then some (dump.simp, dump.entries1, dump.ctxs)
-        else model.map fun c => (c.dfa, c.entries, c.ctxs)
+      -- inlined states: for the dumped machine the set the macro reported, for the model's own
+      -- machine the model's default policy
+      let machine : Option (DFA Trans × List (String × Nat) × List (DFA Nat) × List Nat) :=
+        if mach = "dump" then some (dump.simp, dump.entries1, dump.ctxs, dump.inlined)
+        else model.map fun c => (c.dfa, c.entries, c.ctxs, inlinedStates c.dfa)
       match machine with
       | none => [s!"TRACE {prog} {cid}", "N NOMACHINE", "ENDTRACE"]
-      | some (dfa, entries, ctxs) =>
+      | some (dfa, entries, ctxs, inl) =>
         let cfg : Config U Nat Nat :=
-          { dfa := dfa, ctxs := ctxs, entries := entries,
+          { dfa := dfa, ctxs := ctxs, entries := entries, inl := inl,
             actions := mkActions pd.kinds pd.ruleSets withText, width := width,
             input := if withText then some chars else none }
         let st : LState U := initState { script := (script.map toNat!).toArray } chars
